@@ -159,7 +159,7 @@ impl Mappable for ClassFile {
 
 			module: None, // TODO
 			module_packages: None, // TODO
-			module_main_class: None, // TODO
+			module_main_class: self.module_main_class.remap(remapper)?,
 
 			nest_host_class: self.nest_host_class.remap(remapper)?,
 			nest_members: self.nest_members.remap(remapper)?,
